@@ -72,3 +72,66 @@ func verifC18Lint() {
 }
 
 func VerifHarness_C18_lint() { verifC18Lint() }
+
+// Window family: a lint window of two new files (with or without base files). A table dropped by
+// the second file is reported at the DROP statement whether it was created by the base or by the
+// first file of the same window; the first file (additive) is not reported.
+func verifC18Window() {
+	withBase := verifBool("with-base")
+	target := verifChoice("drop", 3) // 0 nothing (additive), 1 table u of the first window file, 2 table t of the base / first statement
+	var base []migrate.File
+	first := "CREATE TABLE u (id int);\n"
+	if withBase {
+		base = []migrate.File{migrate.NewLocalFile("1_base.sql", []byte("CREATE TABLE t (id int);\n"))}
+	} else {
+		first = "CREATE TABLE t (id int);\n" + first
+	}
+	text := "CREATE TABLE a (id int);\n"
+	dropPos := len(text)
+	switch target {
+	case 0:
+		text += "CREATE TABLE z (id int);\n"
+	case 1:
+		text += "DROP TABLE u;\n"
+	case 2:
+		text += "DROP TABLE t;\n"
+	}
+	files := []migrate.File{migrate.NewLocalFile("2_new.sql", []byte(first)), migrate.NewLocalFile("3_new.sql", []byte(text))}
+	dev := &sqlite.VerifDev{FailAt: -1}
+	drv := verifLintDrv{sqlite.VerifDevDriver(dev)}
+	d := &DevLoader{Dev: &sqlclient.Client{Name: "verif", URL: &sqlclient.URL{Schema: "main"}, Driver: drv}}
+	diff, err := d.LoadChanges(context.Background(), base, files)
+	verifAssert(err == nil && diff != nil && len(diff.Files) == 2, "the files are loaded")
+	if err != nil || diff == nil || len(diff.Files) != 2 {
+		return
+	}
+	verifAssert(dev.Tables == 0, "the dev database is handed back empty")
+	az, err := destructive.New(nil)
+	verifAssert(err == nil, "analyzer")
+	for i, f := range diff.Files {
+		type diag struct {
+			code string
+			pos  int
+		}
+		var got []diag
+		err = az.Analyze(context.Background(), &sqlcheck.Pass{
+			File: f,
+			Dev:  d.Dev,
+			Reporter: sqlcheck.ReportWriterFunc(func(r sqlcheck.Report) {
+				for _, x := range r.Diagnostics {
+					got = append(got, diag{x.Code, x.Pos})
+				}
+			}),
+		})
+		if i == 1 && target != 0 {
+			verifReach("destructive")
+			verifAssert(err != nil, "a file that drops a table existing before it fails the lint")
+			verifAssert(len(got) == 1 && got[0].code == "DS102" && got[0].pos == dropPos, "the drop is reported once, at the position of the DROP statement")
+		} else {
+			verifReach("additive")
+			verifAssert(err == nil && len(got) == 0, "a purely additive file is not reported")
+		}
+	}
+}
+
+func VerifHarness_C18_window() { verifC18Window() }
